@@ -1,6 +1,6 @@
 import AtreeProofs.E2EMap.Created
 import AtreeProofs.World.Eval
-import AtreeProofs.WorldCodec.BytesHist
+import AtreeProofs.WorldCodec.Bytes
 /-
   REQUESTS WITH FITTING VALUES CREATE NO LARGE-VALUE SLAB.
 
@@ -619,11 +619,5 @@ theorem Req.created_eq {D : SlabID → DigestFn 4} {w w' : World} {cx cx' : Ctx}
 theorem Req.newCreated_nil {D : SlabID → DigestFn 4} {w w' : World} {cx cx' : Ctx} (r : Req D w cx w' cx') :
     C09.newCreated cx cx' = [] := by
   simp [C09.newCreated, r.created_eq]
-
-/-- `HistB.req` without its `newCreated` hypothesis: every request extends a byte-level history -/
-theorem HistB.req' {D : SlabID → DigestFn 4} {w w' : World} {cx cx' : Ctx}
-    {s : St Codec.Slab (SlabID × Codec.Bytes)} (h : HistB D w cx s) (r : Req D w cx w' cx') :
-    HistB D w' cx' (WE2E.applyEffs worldCodec s w'.toCodec (C09.newEffects cx cx')) :=
-  HistB.req h r r.newCreated_nil
 
 end Atree.WC
